@@ -15,7 +15,7 @@ RULE = ('(1) arbitrary text (Hypothesis strings over ZINC tokens and arbitrary c
         'closing bracket of a list/dict/nested grid removed, a column/meta/dict tag renamed to start with an upper-case '
         'letter or digit or to contain "-", a 3.0 document holding NA/list/dict/grid/XStr relabelled ver 2.0 - must raise '
         'ZincParseException, under single=False and single=True, also when the broken grid is the second grid of a document '
-        'whose first grid is well-formed. (4) histories of 40 and 150 distinct version labels (documents and scalars, well-formed and malformed, 2.0/3.0 interleaved) must keep that contract. Non-trivial = the text keeps an intact version header (reaches the grammar) or is a class-3 '
+        'whose first grid is well-formed. (3b) breaks of the listed classes (unterminated string, illegal escape, raw newline in a string, unbalanced bracket, 3.0 construct under 2.0 - must be rejected) and odd row separators / extra cells (general contract only) in the first, a middle and the last row of grids of 30 to 257 (thorough: 2049) rows; (4) histories of 40 and 150 distinct version labels (documents and scalars, well-formed and malformed, 2.0/3.0 interleaved) must keep that contract. Non-trivial = the text keeps an intact version header (reaches the grammar) or is a class-3 '
         'breaker; distinct by text.')
 ASSUMPTIONS = ['input is str (charset errors of bytes input are not this property)', 'bracket nesting <= 3',
                'normal parses of the generated inputs take milliseconds; only a case that exceeds 20 s and then 90 s on a second attempt is reported as non-terminating']
@@ -171,6 +171,28 @@ def check_scalar_text(text, ver):
     return 'parsed'
 
 
+def big_breaker_docs(nrows, ver):
+    """(what, text): a well-formed grid of nrows rows, broken at one place - in the first, a middle or the last row (a reader
+    that treats long documents differently from short ones has to keep refusing them)"""
+    head = 'ver:"%s" dis:"big"' % ver
+    rows = ['%d,"s%d",%dkW' % (i, i, i) for i in range(nrows)]
+
+    def doc(rs):
+        return '\n'.join([head, 'a,b,c'] + rs + [''])
+    for p in sorted(set([0, nrows // 2, nrows - 1])):
+        for sep in ('\r', '\x0b', '\x0c', '\x1c', '\x1d', '\x1e', u'\x85', u'\u2028', u'\u2029'):
+            if p < nrows - 1:
+                yield 'big:odd-row-separator', '\n'.join([head, 'a,b,c'] + rows[:p]) + '\n' + rows[p] + sep + '\n'.join(rows[p + 1:]) + '\n'
+        yield 'big:unterminated-string', doc(rows[:p] + ['%d,"s%d,%dkW' % (p, p, p)] + rows[p + 1:])
+        yield 'big:extra-cell', doc(rows[:p] + [rows[p] + ',1'] + rows[p + 1:])
+        yield 'big:illegal-escape', doc(rows[:p] + ['%d,"s\\q%d",%dkW' % (p, p, p)] + rows[p + 1:])
+        if ver == '3.0':
+            yield 'big:unbalanced-bracket', doc(rows[:p] + ['%d,"s%d",[%dkW' % (p, p, p)] + rows[p + 1:])
+        else:
+            yield 'big:3.0-construct-under-2.0', doc(rows[:p] + ['%d,"s%d",[%dkW]' % (p, p, p)] + rows[p + 1:])
+        yield 'big:raw-newline-in-string', doc(rows[:p] + ['%d,"s\n%d",%dkW' % (p, p, p)] + rows[p + 1:])
+
+
 def version_labels(n, order):
     out = []
     for i in range(n):
@@ -320,6 +342,7 @@ def plan(tier, seed, excl):
     t += [('splices', {'ndocs': ndocs, 'shard': i, 'of': 8}) for i in range(8)]
     t += [('breakers', {'shard': i, 'of': 4}) for i in range(4)]
     t.append(('boundary-scalars', {}))
+    t += [('big-breakers', {'n': n, 'ver': v}) for n in ((30, 99, 100, 101, 128, 257) if q else (30, 99, 100, 101, 128, 129, 255, 256, 257, 512, 1000, 1025, 2049)) for v in ('2.0', '3.0')]
     t += [('version-labels', {'n': n, 'order': o}) for n in (40, 150) for o in (0, 1)]
     t += [('random-text', {'shard': i, 'n': 400 if q else 12000}) for i in range(8)]
     t += [('random-scalar', {'shard': i, 'n': 2500 if q else 60000}) for i in range(4)]
@@ -446,6 +469,21 @@ def _run(part, args, env, acc, tier):
             n = 0
         acc.bulk(n, n, labels=('version-labels',))
         acc.sample(case)
+    elif part == 'big-breakers':
+        n = 0
+        for what, t in big_breaker_docs(args['n'], args['ver']):
+            n += 1
+            acc.label('breaker:' + what)
+            try:
+                # an odd row separator or an extra cell is not among the classes the property lists as always rejected:
+                # for those only the general contract (a grid or a positioned ZincParseException) is checked
+                must = what not in ('big:odd-row-separator', 'big:extra-cell')
+                if check_text(t, acc, want_reject=must, what=what if must else None) == 'inconclusive':
+                    acc.inconclusive += 1
+            except Violation as v:
+                acc.violation(v)
+        acc.bulk(n, n)
+        acc.sample({'breaker': 'big-breakers', 'rows': args['n'], 'ver': args['ver'], 'documents': n})
     elif part == 'boundary-scalars':
         n = 0
         for t in BOUNDARY_SCALARS:
